@@ -159,10 +159,16 @@ func init() {
 		}
 		return t.String()
 	}
-	// udpstop #workers #queue #n : n datagrams are read and queued behind slow decoders, then Stop is called;
-	// prints reads, decoded after Stop returned
+	// udpstop #workers #queue #n [#sockets #blocking] : n datagrams (from several source ports when there are several
+	// sockets) are read and queued behind decoders that are held, then Stop is called and the decoders are released;
+	// prints whether Stop returned, reads vs decoded after Stop returned, and whether the receiver can be started and
+	// stopped again on the same port
 	handlers["udpstop"] = func(a []string) string {
 		workers, queue, n := int(unnum(a[0])), int(unnum(a[1])), int(unnum(a[2]))
+		sockets, blocking := 1, false
+		if len(a) >= 5 {
+			sockets, blocking = int(unnum(a[3])), unnum(a[4]) != 0
+		}
 		var reads, decodedN int64
 		utils.VerifEvent = func(ev string, size int, buf *byte) { atomic.AddInt64(&reads, 1) }
 		defer func() { utils.VerifEvent = nil }()
@@ -173,7 +179,7 @@ func init() {
 			atomic.AddInt64(&decodedN, 1)
 			return nil
 		}
-		recv, _ := utils.NewUDPReceiver(&utils.UDPReceiverConfig{Sockets: 1, Workers: workers, QueueSize: queue})
+		recv, _ := utils.NewUDPReceiver(&utils.UDPReceiverConfig{Sockets: sockets, Workers: workers, QueueSize: queue, Blocking: blocking})
 		go func() {
 			for range recv.Errors() {
 			}
@@ -182,14 +188,29 @@ func init() {
 		if err := recv.Start("127.0.0.1", port, decode); err != nil {
 			return "starterr"
 		}
-		c, _ := net.Dial("udp", fmt.Sprintf("127.0.0.1:%d", port))
+		nconn := 1
+		if sockets > 1 {
+			nconn = 8 * sockets
+		}
+		conns := make([]net.Conn, 0, nconn)
+		for i := 0; i < nconn; i++ {
+			c, err := net.Dial("udp", fmt.Sprintf("127.0.0.1:%d", port))
+			if err == nil {
+				conns = append(conns, c)
+			}
+		}
+		if len(conns) == 0 {
+			return "dialerr"
+		}
 		for i := 0; i < n; i++ {
-			c.Write(mkDatagram(uint32(i+1), 40))
+			conns[i%len(conns)].Write(mkDatagram(uint32(i+1), 40))
 			if i%32 == 31 {
 				time.Sleep(200 * time.Microsecond)
 			}
 		}
-		c.Close()
+		for _, c := range conns {
+			c.Close()
+		}
 		// wait until the receiver has taken everything it will take from the kernel
 		last, stable := int64(-1), 0
 		for i := 0; i < 200 && stable < 5; i++ {
@@ -212,6 +233,7 @@ func init() {
 			t.S("stopok")
 		case <-time.After(wd(5 * time.Second)):
 			t.S("stopHANG")
+			return t.String()
 		}
 		r, d := atomic.LoadInt64(&reads), atomic.LoadInt64(&decodedN)
 		if r == d {
@@ -220,6 +242,25 @@ func init() {
 			t.S(fmt.Sprintf("LOST%d", r-d))
 		}
 		t.N(uint64(r))
+		// the stopped receiver starts and stops again on the same port
+		again := make(chan string, 1)
+		go func() {
+			if err := recv.Start("127.0.0.1", port, decode); err != nil {
+				again <- "restartERR"
+				return
+			}
+			if err := recv.Stop(); err != nil {
+				again <- "restopERR"
+				return
+			}
+			again <- "restartok"
+		}()
+		select {
+		case v := <-again:
+			t.S(v)
+		case <-time.After(wd(5 * time.Second)):
+			t.S("restartHANG")
+		}
 		return t.String()
 	}
 }
